@@ -128,6 +128,15 @@ type Enc struct {
 	privateFVs []*ssa.FreeVar
 	dynType    map[string]types.Type
 	fieldPtrs  map[string]lvalue
+	mon        *monState
+	monRel     map[string]*State
+	monAcq     map[string]*State
+	protectedSet map[string]bool
+	monSites   map[ssa.Instruction][2]int
+	curDefer   *ssa.Defer
+	unlockSeen map[string]int
+	monOwnerV  *Val
+	sharedSet  map[string]bool
 }
 
 type lvalue struct {
@@ -148,7 +157,7 @@ func NewEnc(w *World, fn *ssa.Function, key string, spec *FuncSpec) *Enc {
 		cellName: map[string][]*ssa.Alloc{}, regs: map[ssa.Value]Val{}, addrs: map[ssa.Value]lvalue{}, used: map[string]bool{},
 		usedTrusted: map[string]bool{}, loops: map[*ssa.BasicBlock]*loopInfo{}, inEdges: map[*ssa.BasicBlock][]edge{},
 		counters: map[string]int{}, iterStr: map[ssa.Value]Val{}, closures: map[ssa.Value]*ssa.MakeClosure{},
-		tupleOf: map[ssa.Value][]Val{}, callOrd: map[string]int{}, freeVars: map[*ssa.FreeVar]lvalue{}, paramVals: map[string]Val{}, usedLemmas: map[string]bool{}, implUsed: map[string]types.Type{}, iterMap: map[ssa.Value]Val{}, closureOf: map[string]*ssa.MakeClosure{}, lateBlocks: map[*ssa.BasicBlock]bool{}, ghostUsed: map[int]bool{}, dynType: map[string]types.Type{}, fieldPtrs: map[string]lvalue{}}
+		tupleOf: map[ssa.Value][]Val{}, callOrd: map[string]int{}, freeVars: map[*ssa.FreeVar]lvalue{}, paramVals: map[string]Val{}, usedLemmas: map[string]bool{}, implUsed: map[string]types.Type{}, iterMap: map[ssa.Value]Val{}, closureOf: map[string]*ssa.MakeClosure{}, lateBlocks: map[*ssa.BasicBlock]bool{}, ghostUsed: map[int]bool{}, dynType: map[string]types.Type{}, fieldPtrs: map[string]lvalue{}, monRel: map[string]*State{}, monAcq: map[string]*State{}, unlockSeen: map[string]int{}}
 }
 
 func (e *Enc) freshName(prefix string) string {
@@ -222,9 +231,9 @@ func (e *Enc) typeFacts(v Val) string {
 		}
 	case *types.Slice:
 		return and(app("<=", "0", v.C[1]), app("<=", "0", v.C[2]), app("<=", v.C[2], v.C[3]), app("<=", v.C[3], "maxcap"),
-			imp(eq(v.C[0], "0"), and(eq(v.C[2], "0"), eq(v.C[3], "0"))), app("<=", "0", v.C[0]))
+			imp(eq(v.C[0], "0"), and(eq(v.C[2], "0"), eq(v.C[3], "0"))))
 	case *types.Pointer, *types.Map, *types.Chan, *types.Signature:
-		return app("<=", "0", v.C[0])
+		return "true" // references may be interior (negative) references
 	case *types.Interface:
 		return and(app("<=", "0", v.C[0]), imp(eq(v.C[0], "0"), eq(v.C[1], "0")))
 	case *types.Struct:
@@ -414,7 +423,30 @@ func (e *Enc) loadField(st *State, stT types.Type, fidx int, ref string) Val {
 	return e.loadFieldDeep(st, stT, fidx, ref)
 }
 
+// sharedKey: a field other threads may write at any time while this function runs.
+func (e *Enc) sharedKey(stT types.Type, fidx int) bool {
+	if e.spec == nil || e.spec.Thread != "any" {
+		return false
+	}
+	if e.sharedSet == nil {
+		e.sharedSet = map[string]bool{}
+		for _, m := range e.W.Specs.Monitors {
+			for _, p := range m.Shared {
+				for _, ks := range e.resolveHeapItem(p) {
+					e.sharedSet[ks[0]] = true
+				}
+			}
+		}
+	}
+	return e.sharedSet[fieldKey(stT, fidx, 0)]
+}
+
 func (e *Enc) loadFieldFlat(st *State, stT types.Type, fidx int, ref string) Val {
+	if e.sharedKey(stT, fidx) {
+		// unstable read: any value of the type, different at every read
+		s := stT.Underlying().(*types.Struct)
+		return e.freshVal("shared."+s.Field(fidx).Name(), s.Field(fidx).Type())
+	}
 	s := stT.Underlying().(*types.Struct)
 	ft := s.Field(fidx).Type()
 	v := Val{T: ft}
@@ -822,6 +854,7 @@ func (e *Enc) Encode() {
 	}
 	st.m["alloc"] = e.heapKey(st, "alloc", SInt)
 	e.assume("true", app("<", "0", st.m["alloc"]))
+	e.monInit(st)
 	e.entryCtx = &Ctx{E: e, Vars: map[string]Val{}, St: e.entrySt, where: e.key + " old()"}
 	for k, v := range e.paramVals {
 		e.entryCtx.Vars[k] = v
@@ -902,6 +935,18 @@ func (e *Enc) merge(label string, in []edge) (string, *State) {
 		if k == "gen" {
 			continue
 		}
+		if k == "mon:acq" || k == "mon:rel" {
+			same := n == len(in)
+			for _, ed := range in {
+				if ed.st.m[k] != in[0].st.m[k] {
+					same = false
+				}
+			}
+			if same {
+				st.m[k] = in[0].st.m[k]
+			}
+			continue
+		}
 		if n == len(in) {
 			ks = append(ks, k)
 		} else if strings.HasPrefix(k, "c:") {
@@ -978,6 +1023,7 @@ func (e *Enc) block(b *ssa.BasicBlock) {
 		e.loopPos(entryCtx, li)
 		lb := &blockState{e: e, b: b, g: g, st: st}
 		lb.ghostAt(fmt.Sprintf("loop %d entry", li.ord), b.Instrs[0], nil)
+		lb.monSegment(fmt.Sprintf("loop%d.entry", li.ord), b.Instrs[0])
 		g = lb.g
 		c := e.ctx(st, fmt.Sprintf("loop %d init", li.ord))
 		e.loopPos(c, li)
@@ -998,7 +1044,7 @@ func (e *Enc) block(b *ssa.BasicBlock) {
 		for _, k := range keys {
 			hv := false
 			switch {
-			case k == "gen" || k == "alloc" || isHeapKey(k):
+			case k == "gen" || k == "alloc" || isHeapKey(k) || strings.HasPrefix(k, "mon:") || strings.HasPrefix(k, "defer:"):
 			case strings.HasPrefix(k, "c:"):
 				for a := range cells {
 					if strings.HasPrefix(k, "c:"+a.Name()+":") {
@@ -1038,6 +1084,8 @@ func (e *Enc) block(b *ssa.BasicBlock) {
 				e.assume(g, and(app("<=", "0", p), app("<=", p, s.C[2])))
 			}
 		}
+		hc0 := &blockState{e: e, b: b, g: g, st: st}
+		_ = hc0
 		li.head = st.clone()
 		hc := e.ctx(st, fmt.Sprintf("loop %d invariant", li.ord))
 		e.loopPos(hc, li)
@@ -1049,6 +1097,8 @@ func (e *Enc) block(b *ssa.BasicBlock) {
 			li.decH = e.fresh(fmt.Sprintf("dec%d", li.ord), SInt)
 			e.def(eq(li.decH, hc.intT(li.spec.Dec.Expr)))
 		}
+		nb := &blockState{e: e, b: b, g: g, st: st}
+		nb.monNewSegment()
 	}
 	bs := &blockState{e: e, b: b, g: g, st: st}
 	for _, ins := range b.Instrs {
@@ -1073,6 +1123,9 @@ func (e *Enc) addEdge(from, to *ssa.BasicBlock, guard string, st *State) {
 		if li.nback > 1 {
 			sfx = fmt.Sprintf("~%d", li.nback)
 		}
+		sb := &blockState{e: e, b: from, g: guard, st: st}
+		sb.monSegment(fmt.Sprintf("loop%d.back%s", li.ord, sfx), from.Instrs[len(from.Instrs)-1])
+		guard = sb.g
 		for i, inv := range li.spec.Inv {
 			e.assert(guard, fmt.Sprintf("loop%d.preserve.%s%s", li.ord, clauseName(inv, i), sfx), "inv", c.boolT(inv.Expr), inv.Src, pos)
 		}
@@ -1130,7 +1183,17 @@ func (e *Enc) finish() {
 			}
 		}
 		xb := &blockState{e: e, b: e.fn.Blocks[0], g: g, st: st}
+		if len(e.W.Specs.Monitors) > 0 && e.mon != nil || (e.spec != nil && e.spec.Holds != "") {
+			want := "false"
+			if e.spec != nil && e.spec.Holds != "" {
+				want = "true"
+			}
+			xb.assertG("exit.lockstate", "mon", eq(xb.held(), want), "lock state at return differs from the contract (holds)", e.fn.Blocks[0].Instrs[0])
+		}
 		xb.ghostAt("exit", e.fn.Blocks[0].Instrs[0], nil)
+		if e.spec != nil && e.spec.Holds != "" {
+			xb.monSegment("exit", e.fn.Blocks[0].Instrs[0])
+		}
 		g = xb.g
 		c := e.ctx(st, "ensures")
 		for i := 0; i < results.Len(); i++ {
